@@ -65,6 +65,30 @@ def callIt : CVal → CVal
   | .callable r => r
   | v => v
 
+/-- `callable(x)` -/
+def CVal.isCallable : CVal → Bool
+  | .callable _ => true
+  | _ => false
+
+/-- `x()` — what the callable returns; for a value that is not callable Python raises TypeError: the translated
+    code only calls behind a `callable(x)` test (`C19.call_guarded`), the value itself is returned here. -/
+def CVal.call : CVal → CVal
+  | .callable r => r
+  | v => v
+
+/-- `name in d` for the dict given in code (`none` = Python `None`, for which the source tests first) -/
+def dictHas (d : Option (List (String × CVal))) (k : String) : Bool :=
+  match d with
+  | some l => (l.lookup k).isSome
+  | Option.none => false
+
+/-- `d[name]`; a missing key raises KeyError in Python: the translated code only reads behind a `name in d` test,
+    `None` is returned here (the value an absent entry is treated as by the statements that follow). -/
+def dictGet (d : Option (List (String × CVal))) (k : String) : CVal :=
+  match d with
+  | some l => (l.lookup k).getD CVal.none
+  | Option.none => CVal.none
+
 /-- `str(x)` for the values whose text the model knows (`none` = not modelled: lists, callables, foreign objects) -/
 def pyStr : CVal → Option String
   | .none => some "None"
